@@ -628,28 +628,39 @@ func genC02Limit(g *G) {
 	if g.Thorough() {
 		nsh = 8
 	}
-	emit := func(β int) {
+	emit := func(β, nmax int) {
 		for lo := 1; lo <= nmax; lo += 4096 {
 			g.Case([]string{"reset", fmt.Sprintf("lim %d %d %d", β, lo, min(nmax, lo+4095))})
 		}
 	}
 	if g.Thorough() {
-		// every β, partitioned over the shards (heavy β near 1000 are spread round-robin)
+		// every β, partitioned over the shards.  The exact limit costs time proportional to its value
+		// (about 22000 for β = 999, n = 65536), so for β >= 990 every n up to 4096 is compared and
+		// 300 random n beyond; for β < 990 every n up to 65536.
 		for β := 0; β <= 1000; β++ {
-			if β%nsh == sh%nsh {
-				emit(β)
+			if β%nsh != sh%nsh {
+				continue
+			}
+			if β < 990 || β == 1000 {
+				emit(β, nmax)
+				continue
+			}
+			emit(β, 4096)
+			for i := 0; i < 300; i++ {
+				n := 4097 + g.Intn(nmax-4096)
+				g.Case([]string{"reset", fmt.Sprintf("lim %d %d %d", β, n, n)})
 			}
 		}
 		return
 	}
-	must := []int{0, 1, 250, 500, 999, 1000, 998, 2, 750, 125}
+	must := []int{0, 999, 1, 1000, 250, 2, 500, 989, 750, 125}
 	for i, β := range must {
 		if i%nsh == sh%nsh {
-			emit(β)
+			emit(β, nmax)
 		}
 	}
 	for i := 0; i < 20; i++ {
-		emit(g.Intn(1001))
+		emit(g.Intn(990), nmax)
 	}
 }
 
